@@ -738,4 +738,140 @@ theorem sortNames_perm (l : List Str) : (sortNames l).Perm l := by
   | cons x xs ih => exact (insertSorted_perm x _).trans (List.Perm.cons x ih)
 
 
+/-! ### an error result never carries the success code -/
+
+theorem parseErr_ne_success (e : Err) (h : ParseErr e) : e ≠ .success := by
+  rcases h with h | h | h | h <;> (rw [h]; intro hh; cases hh)
+
+theorem gate_ne_success (g : Global) (node : Node) (e : Err) (h : gate g node = some e) : e ≠ .success := by
+  unfold gate at h
+  split at h
+  · cases h; intro hh; cases hh
+  · split at h
+    · cases h; intro hh; cases hh
+    · split at h
+      · cases h; intro hh; cases hh
+      · cases h
+
+theorem readOpened_ne_success (ctx : RdCtx) (s : RdState) (join python : Bool) (a delim comment : Str) (e : Err)
+    (h : (readOpened ctx s join python a delim comment).2 = .error e) : e ≠ .success := by
+  rcases (readOpened_spec ctx s join python a delim comment).2.2 with h1 | ⟨e', h1, hp⟩ | ⟨kf, h1, _⟩
+  · rw [h1] at h; cases h; intro hh; cases hh
+  · rw [h1] at h; cases h; exact parseErr_ne_success _ hp
+  · rw [h1] at h; cases h
+
+theorem readFileCB_ne_success (ctx : RdCtx) (s : RdState) (join python : Bool) (p d c : Str) (e : Err)
+    (h : (readFileCB ctx s join python p d c).2 = .error e) : e ≠ .success := by
+  unfold readFileCB at h
+  split at h
+  · cases h; intro hh; cases hh
+  · split at h
+    · rename_i hg; cases h; exact gate_ne_success _ _ _ hg
+    · simp only at h
+      split at h
+      · cases h; intro hh; cases hh
+      · split at h
+        · cases h; intro hh; cases hh
+        · exact readOpened_ne_success _ _ _ _ _ _ _ _ h
+
+theorem readSeq_ne_success (ctx : RdCtx) (join python : Bool) (d c : Str) (s : RdState) (ps : List Str) (e : Err)
+    (h : (readSeq ctx join python d c s ps).2 = .error e) : e ≠ .success := by
+  induction ps generalizing s e with
+  | nil => simp [readSeq] at h
+  | cons p ps ih =>
+    unfold readSeq at h
+    simp only at h
+    have h1 := readFileCB_ne_success ctx s join python p d c
+    generalize readFileCB ctx s join python p d c = q at h h1
+    obtain ⟨q1, q2⟩ := q
+    cases q2 with
+    | error e' => simp only at h; cases h; exact h1 _ rfl
+    | ok kf =>
+      simp only at h
+      have h2 := fun e' => ih q1 e'
+      generalize readSeq ctx join python d c q1 ps = r at h h2
+      obtain ⟨r1, r2⟩ := r
+      cases r2 with
+      | error e' => simp only at h; cases h; exact h2 _ rfl
+      | ok kfs => simp at h
+
+theorem readFirst_ne_success (ctx : RdCtx) (join python : Bool) (d c : Str) (s : RdState) (ps : List Str) (e : Err)
+    (h : (readFirst ctx join python d c s ps).2 = .error e) : e ≠ .success := by
+  induction ps generalizing s e with
+  | nil => simp [readFirst] at h
+  | cons p ps ih =>
+    unfold readFirst at h
+    simp only at h
+    have h1 := readFileCB_ne_success ctx s join python p d c
+    generalize readFileCB ctx s join python p d c = q at h h1
+    obtain ⟨q1, q2⟩ := q
+    cases q2 with
+    | ok kf => simp at h
+    | error e' =>
+      by_cases hn : e' = .nofile
+      · subst hn; simp only at h; exact ih q1 e h
+      · have : e = e' := by
+          cases e' <;> simp_all
+        rw [this]; exact h1 _ rfl
+
+theorem readHistory_ne_success (ctx : RdCtx) (s : RdState) (dirs : List Str) (name suffix delim : Option Str)
+    (comment : Str) (join python : Bool) (confDirs : List Str) (e : Err) (b : Bool)
+    (h : (readHistory ctx s dirs name suffix delim comment join python confDirs).2 = .error (e, b)) : e ≠ .success := by
+  unfold readHistory at h
+  cases delim with
+  | none => simp only at h; cases h; intro hh; cases hh
+  | some d =>
+    cases name with
+    | none => simp only at h; cases h; intro hh; cases hh
+    | some nm =>
+      simp only at h
+      by_cases hnm : nm.isEmpty = true
+      · simp only [hnm, if_true] at h
+        have h2 := readSeq_ne_success ctx join python d comment s
+          (dropinPaths ctx.fs dirs nm (dotSuffix (some nm) suffix) (if confDirs.isEmpty then [dotSuffix (some nm) suffix ++ [0x2e, 0x64]] else confDirs))
+        generalize readSeq ctx join python d comment s _ = r at h h2
+        obtain ⟨r1, r2⟩ := r
+        cases r2 with
+        | error e' => simp only at h; cases h; exact h2 _ rfl
+        | ok kfs =>
+          simp only at h
+          split at h
+          · cases h; intro hh; cases hh
+          · cases h
+      · simp only [hnm, Bool.false_eq_true, if_false] at h
+        have h1 := readFirst_ne_success ctx join python d comment s (mainCandidates dirs nm (dotSuffix (some nm) suffix))
+        generalize readFirst ctx join python d comment s _ = q at h h1
+        obtain ⟨q1, q2⟩ := q
+        cases q2 with
+        | error e' => simp only at h; cases h; exact h1 _ rfl
+        | ok main =>
+          simp only at h
+          have h2 := readSeq_ne_success ctx join python d comment q1
+            (dropinPaths ctx.fs dirs nm (dotSuffix (some nm) suffix) (if confDirs.isEmpty then [dotSuffix (some nm) suffix ++ [0x2e, 0x64]] else confDirs))
+          generalize readSeq ctx join python d comment q1 _ = r at h h2
+          obtain ⟨r1, r2⟩ := r
+          cases r2 with
+          | error e' => simp only at h; cases h; exact h2 _ rfl
+          | ok kfs =>
+            simp only at h
+            split at h
+            · cases h; intro hh; cases hh
+            · cases h
+
+theorem readConfigCore_ne_success (ctx : RdCtx) (s : RdState) (kf : KeyFile) (name suffix delim : Option Str) (comment : Str) (e : Err)
+    (h : (readConfigCore ctx s kf name suffix delim comment).2 = .error e) : e ≠ .success := by
+  unfold readConfigCore at h
+  simp only at h
+  have h1 := readHistory_ne_success ctx s kf.parseDirs name suffix delim comment kf.join kf.python
+    (if kf.confDirs.isEmpty then s.g.confDirs else kf.confDirs)
+  generalize readHistory ctx s kf.parseDirs name suffix delim comment kf.join kf.python _ = q at h h1
+  obtain ⟨q1, q2⟩ := q
+  cases q2 with
+  | error eb => obtain ⟨e', b⟩ := eb; simp only at h; cases h; exact h1 _ _ rfl
+  | ok files =>
+    simp only at h
+    split at h
+    · cases h; intro hh; cases hh
+    · cases h
+
 end Econf
